@@ -4,12 +4,13 @@ package main
 // obligations, known-finding regions, results.
 
 import (
-	"go/types"
 	"fmt"
+	"go/types"
 	"hash/fnv"
 	"os"
 	"sort"
 	"strings"
+	"sync"
 	"time"
 )
 
@@ -17,6 +18,7 @@ type Config struct {
 	SolverTimeoutMs int
 	Shard, NShards  int
 	ShardDepth      int
+	Claims          *sync.Map // subtree claims shared by the workers of one run (dynamic sharding)
 	MaxPaths        int
 	MaxBackEdges    int // per frame unwinding limit
 	MaxSteps        int64
@@ -346,6 +348,16 @@ func (e *Engine) shardSkip() bool {
 	}
 	if e.ps.forks != e.cfg.ShardDepth {
 		return false
+	}
+	if e.cfg.Claims != nil {
+		// every worker walks the same (canonically ordered) decision tree
+		// down to the shard depth; whoever arrives first at a subtree takes it
+		key := make([]byte, 0, 2*len(e.ps.decisions))
+		for _, d := range e.ps.decisions {
+			key = append(key, byte(d), byte(d>>8))
+		}
+		_, taken := e.cfg.Claims.LoadOrStore(string(key), e.cfg.Shard)
+		return taken
 	}
 	h := fnv.New32a()
 	for _, d := range e.ps.decisions {
@@ -814,6 +826,9 @@ func (e *Engine) renderUnder(v Value, model map[string]uint64, cache map[*Term]u
 			}
 			return fmt.Sprintf("%d", n)
 		case 4:
+			if o.v.O == nil {
+				return `""`
+			}
 			return e.renderUnder(o.v, model, cache, depth)
 		}
 		if st, ok := o.t.Underlying().(*types.Slice); ok {
